@@ -310,6 +310,12 @@ def run(ctx, report: Report) -> None:
                 raise AnalysisError(f'Inputs.parse_value({itype!r}): outside the evaluable fragment: {e}')
             if isinstance(res, (tuple, list)):
                 arities.setdefault(len(res), dict(used))
+                non_numeric = [x for x in res if isinstance(x, bool) or not isinstance(x, (int, float))]
+                if non_numeric and not r7.findings:
+                    r7.violation(f'css_match.Inputs.parse_value members {itype}', mmod.where(src.func('css_match.Inputs.parse_value')[1]),
+                                 f'type={itype}: the parsed value {tuple(res)!r} has a member that is not a number ({non_numeric[0]!r}): the tuples '
+                                 f'are compared with < and >, and text compares lexicographically ("10000" < "9999"), so min / max / value are '
+                                 f'mis-ordered as soon as their fields differ in number of digits')
         r7.instance({'type': itype, 'tuple_lengths': sorted(arities)}, key=f'arity|{itype}')
         r7.obligation(len(arities) <= 1)
         if len(arities) > 1:
